@@ -247,7 +247,25 @@ func (u *unitCtx) strBody() string {
 	if u.mb && rapid.IntRange(0, 2).Draw(t, "strMB") == 0 {
 		return rapid.SampledFrom([]string{"é日本", "naïve → ok", "данные", "☂☂"}).Draw(t, "strMBText")
 	}
+	if k := rapid.IntRange(0, 5).Draw(t, "strDecoy"); k == 0 {
+		if name := u.g.anyMethodName(); name != "" {
+			return name + "()" // the name of a project method inside a literal is not a call
+		}
+	}
 	return rapid.SampledFrom([]string{"", "a", "x.call()", "// no comment", "/* none */", "new Foo()", "it's"}).Draw(t, "strText")
+}
+
+func (g *gen) anyMethodName() string {
+	var all []string
+	for _, s := range g.sigs {
+		for _, m := range s.methods {
+			all = append(all, m.name)
+		}
+	}
+	if len(all) == 0 {
+		return ""
+	}
+	return rapid.SampledFrom(all).Draw(g.t, "decoyMethod")
 }
 
 // stmt writes one statement (without the trailing newline).
